@@ -29,6 +29,7 @@ func checkC11(r *core.Run) {
 	c11Buckets(r, p)
 	c11Index(r, p)
 	c11Workers(r, p)
+	c11WorkerLocksBalanced(r, p, "R-C11-workers")
 }
 
 func c11Snapshot(r *core.Run, p *core.Program) {
@@ -961,4 +962,54 @@ func c11WaitOnEveryReturn(r *core.Run, p *core.Program) {
 	}
 	sort.Strings(badStores)
 	r.Check(deferred && nTrue >= 1 && okSet && len(badStores) == 0, rule, "verifiers-joined-on-early-return", p.Pos(ct.Pos()), "the wait flag is set with every verifier start and never cleared", fmt.Sprintf("the flag guarding the deferred wait is not sticky (%s; set with every start: %v)", strings.Join(badStores, "; "), okSet))
+}
+
+// c11WorkerLocksBalanced: the per-transaction mutexes taken by the code the parallel script verifiers run
+// (cached signature-hash parts and the like) are released on every path out of the function that took
+// them - an exit that keeps one blocks every other verifier of the same transaction, and the block's
+// connection never completes.  Checked for every function reachable from script verification that
+// acquires a mutex itself.
+func c11WorkerLocksBalanced(r *core.Run, p *core.Program, rule string) {
+	root := p.Func("lib/script.VerifyTxScript")
+	if root == nil {
+		r.Fail(rule, "verifier-locks-released", "-", "VerifyTxScript not found")
+		return
+	}
+	la := an.NewLockAnalysis(p)
+	reach := an.StaticReach([]*ssa.Function{root}, true, nil)
+	n := 0
+	var bad []string
+	for _, fn := range an.SortedFuncs(reach) {
+		if len(an.CallsTo(fn, false, "(*sync.Mutex).Lock", "(*sync.RWMutex).Lock", "(*sync.RWMutex).RLock")) == 0 {
+			continue
+		}
+		n++
+		s := la.Summary(fn)
+		for k, v := range s.Net {
+			if v != 0 {
+				bad = append(bad, fmt.Sprintf("%s returns with %s held (net %+d)", core.FuncName(fn), k, v))
+			}
+		}
+		for k := range s.Mixed {
+			bad = append(bad, fmt.Sprintf("%s keeps %s on some of its exits and releases it on others", core.FuncName(fn), k))
+		}
+		for _, rep := range la.Reports {
+			if rep.Fn == fn && (rep.Kind == "exit-held" || rep.Kind == "double-acquire") {
+				bad = append(bad, fmt.Sprintf("%s: %s %s at %s", core.FuncName(fn), rep.Kind, rep.Lock, p.Pos(an.InstrPos(rep.Instr))))
+			}
+		}
+	}
+	sort.Strings(bad)
+	bad = dedupStrings(bad)
+	r.Check(len(bad) == 0 && n >= 2, rule, "verifier-locks-released", p.Pos(root.Pos()), fmt.Sprintf("%d functions reachable from script verification take a mutex; each releases it on every exit", n), strings.Join(bad, "; "))
+}
+
+func dedupStrings(s []string) []string {
+	var out []string
+	for i, x := range s {
+		if i == 0 || x != s[i-1] {
+			out = append(out, x)
+		}
+	}
+	return out
 }
